@@ -43,7 +43,8 @@ pub fn spec_for2(property: &str) -> Option<CheckSpec> {
         "C05" => CheckSpec {
             property: "C05".into(),
             level: "fault_enumeration",
-            profiles: vec![p("bitflip", 8), p("bitflip-clean", 2)],
+            profiles: vec![p("bitflip", 8), p("bitflip-clean", 2), p("bitflip-sweep", 3)],
+            thorough_extra: vec![p("bitflip-sweep-full", 3)],
             quick_runs: 6_000,
             thorough_runs: 300_000,
             quick_budget_s: 75,
@@ -59,6 +60,7 @@ pub fn spec_for2(property: &str) -> Option<CheckSpec> {
                 property: "C06".into(),
                 level: "fault_enumeration",
                 profiles: vec![p("crash-kill", 4), p("crash-power", 3), p("crash-sweep-kill", 2), p("crash-sweep-power", 1)],
+                thorough_extra: vec![],
                 quick_runs: 4_000,
                 thorough_runs: 100_000,
                 quick_budget_s: 90,
@@ -73,6 +75,7 @@ pub fn spec_for2(property: &str) -> Option<CheckSpec> {
             property: "C11".into(),
             level: "fault_enumeration",
             profiles: vec![p("iofault", 6), p("iofault-sweep", 3)],
+            thorough_extra: vec![],
             quick_runs: 4_000,
             thorough_runs: 100_000,
             quick_budget_s: 90,
@@ -86,6 +89,7 @@ pub fn spec_for2(property: &str) -> Option<CheckSpec> {
             property: "C14".into(),
             level: "fault_enumeration",
             profiles: vec![p("cancel", 6), p("cancel-sweep", 3)],
+            thorough_extra: vec![],
             quick_runs: 4_000,
             thorough_runs: 100_000,
             quick_budget_s: 90,
